@@ -94,7 +94,9 @@ def _handle_running(
     # Atomic: store stage + push message together
     txn_helper.execute_atomic(
         stage=stage,
-        messages_to_push=[(message, delay.total_seconds())],
+        # Polling is not a failed attempt: start the re-queued message's
+        # attempt count afresh (push_message persists message.attempts).
+        messages_to_push=[(message.copy_with_attempts(0), delay.total_seconds())],
         handler_name="RunTask",
     )
 
